@@ -31,7 +31,30 @@ TRUSTED = ["the Cartesian parser is an oracle of the model and of the spec oracl
            "clean policy says so (engine E6; observed here through the executed tests and the door's unset requests)",
            "flag_children's worker regex `(?:^|\\.)<component form>.*<worker id>(?:$|\\.)` and flag_intersection's "
            "`<setless name>$` are read as attribute tests; the equivalence is checked on every node of every run",
-           "the compiled driver drv_tools (falls back to `lake env lean --run Driver/Tools.lean` when it is stale)"]
+           "the compiled driver drv_tools (falls back to `lake env lean --run Driver/Tools.lean` when it is stale)",
+           "translator tie (removeSet_matches_source, flagPasses_matches_source, workerBody_matches_source, "
+           "update_matches_source, bridgePair_matches_source, bridgeAll_matches_source, flagIntersectionStep_matches_source, "
+           "flagIntersection_matches_source): harness/pygen.py (Python AST -> "
+           "Lean `do` block, fails closed; its opt-in `effect_loops` shapes) on the pieces harness/pygen_pxupdate.py cuts "
+           "out of intertest_setup.update (pinned prologue / epilogue / per-vm prefix, the two loops and the all-pairs "
+           "bridging loop matched structurally, the `try` around the parse of the remove-set graph whose handler must end "
+           "in `continue`); the atom / statement tables of that module (parser calls = the oracle `UEnv` of "
+           "I2N/Lemmas/ToolsUpdate.lean keyed by restriction, vm index, vm and worker; the two `flag_children` loops "
+           "with their `except AssertionError: raise ValueError` pinned whole to `fcAllM`); the adapter `updateAll` / "
+           "`bridgeAll` around the hand model `updateFlags` is defined by hand in I2N/Lemmas/ToolsUpdate.lean"]
+
+
+def extract(ctx):
+    """second tie: `intertest_setup.update` cut into its loops and translated to Lean from the CURRENT source (raises
+    pygen.Unsupported when it left the translated subset / a pinned statement changed / the loop structure is no
+    longer the expected one; run.py records that as a broken proof obligation and searches for a failing input)"""
+    import pygen_pxupdate
+    if pygen_pxupdate.extract_update(ctx):
+        ctx.notes.append("I2N/Extracted/GenUpdate.lean changed: the source of intertest_setup.update differs from the "
+                         "one the committed file was generated from (the …_matches_source theorems are re-checked)")
+    ctx.extra["regenerated"] = ("lean/I2N/Extracted/GenUpdate.lean (update: remove-set restriction, flagging passes, "
+                                "loop skeleton, all-pairs bridging; TestGraph.flag_intersection: loop body; via "
+                                "harness/pygen_pxupdate.py + harness/pygen.py)")
 
 DEFAULT = {"vm1": "CentOS", "vm2": "Win10", "vm3": "Ubuntu"}
 # setup chains of the shipped suite (generator only; the oracle reads the parsed graph): state -> parent state
